@@ -1,0 +1,40 @@
+//go:build verif
+
+package utils
+
+// Contracts for the verification framework in /verif (comment-only file,
+// compiled only with -tags verif; see /verif/DESIGN.md).
+
+//@ import yubiattest "github.com/theparanoids/ysshra/attestation/yubiattest"
+
+//@ # ---------------------------------------------------------------- C16: PEM bundles
+//@ # A bundle yields the certificates of its blocks in order: block k is decoded from what block k-1 left over, every block goes
+//@ # through the lenient parser, anything that is neither a block nor blank space is an error, as is a block that does not parse.
+//@ func ParsePEMCertificates(data)
+//@   flag logged
+//@   let d0 = old(calls(pem.Decode))
+//@   let p0 = old(calls(yubiattest.ParseCertificate))
+//@   ensures err != nil ==> certs == nil
+//@   ensures [one-certificate-per-block-in-order] err == nil ==> (len(certs) == calls(yubiattest.ParseCertificate) - p0 &&
+//@     forall(k, 0 <= k && k < len(certs), certs[k] == ret(yubiattest.ParseCertificate, p0 + k, 0) && certs[k] != nil &&
+//@       ret(yubiattest.ParseCertificate, p0 + k, 1) == nil && ret(pem.Decode, d0 + k, 0) != nil &&
+//@       arg(yubiattest.ParseCertificate, p0 + k, 0) == ret(pem.Decode, d0 + k, 0).Bytes))
+//@   ensures [blocks-are-read-one-after-the-other] forall(k, 1 <= k && k < calls(pem.Decode) - d0, arg(pem.Decode, d0 + k, 0) == ret(pem.Decode, d0 + k - 1, 1))
+//@   ensures [a-block-that-does-not-parse-is-an-error] (calls(yubiattest.ParseCertificate) > p0 && ret(yubiattest.ParseCertificate, calls(yubiattest.ParseCertificate) - 1, 1) != nil) ==> err != nil
+//@   ensures [every-block-is-parsed] calls(pem.Decode) - d0 >= calls(yubiattest.ParseCertificate) - p0
+//@   loop 1:
+//@     invariant certs == nil || fresh(arr(certs))
+//@     invariant len(certs) == calls(yubiattest.ParseCertificate) - p0 && len(certs) == calls(pem.Decode) - d0
+//@     invariant len(certs) > 0 ==> data == ret(pem.Decode, calls(pem.Decode) - 1, 1)
+//@     invariant len(certs) == 0 ==> data == old(data)
+//@     invariant forall(k, 0 <= k && k < len(certs), certs[k] == ret(yubiattest.ParseCertificate, p0 + k, 0) && certs[k] != nil &&
+//@       ret(yubiattest.ParseCertificate, p0 + k, 1) == nil && ret(pem.Decode, d0 + k, 0) != nil &&
+//@       arg(yubiattest.ParseCertificate, p0 + k, 0) == ret(pem.Decode, d0 + k, 0).Bytes, certs[k])
+//@     invariant forall(k, 1 <= k && k < calls(pem.Decode) - d0, arg(pem.Decode, d0 + k, 0) == ret(pem.Decode, d0 + k - 1, 1))
+
+//@ func ParsePEMCertificate(data)
+//@   let c0 = old(calls(ParsePEMCertificates))
+//@   ensures [first-certificate-of-the-bundle] calls(ParsePEMCertificates) == c0 + 1 && arg(ParsePEMCertificates, c0, 0) == data &&
+//@     (ret(ParsePEMCertificates, c0, 1) != nil ==> (cert == nil && err == ret(ParsePEMCertificates, c0, 1))) &&
+//@     ((ret(ParsePEMCertificates, c0, 1) == nil && len(ret(ParsePEMCertificates, c0, 0)) == 0) ==> (cert == nil && err != nil)) &&
+//@     ((ret(ParsePEMCertificates, c0, 1) == nil && len(ret(ParsePEMCertificates, c0, 0)) > 0) ==> (err == nil && cert == retc(ParsePEMCertificates, c0, 0)[off(ret(ParsePEMCertificates, c0, 0))]))
